@@ -59,11 +59,22 @@ pub fn parse_with_catalog(data: &str) -> Result<CtehexmlData, Error> {
     let mut db = ctehexmldata.bdldata.db;
     // Carga datos del catálogo comprimido
     let catdb = load_lider_catalog()?;
-    db.materials.extend(catdb.materials);
-    db.wallcons.extend(catdb.wallcons);
-    db.wincons.extend(catdb.wincons);
-    db.glasses.extend(catdb.glasses);
-    db.frames.extend(catdb.frames);
+    // Las definiciones del proyecto tienen prioridad sobre las del catálogo con el mismo nombre
+    for (name, material) in catdb.materials {
+        db.materials.entry(name).or_insert(material);
+    }
+    for (name, wallcons) in catdb.wallcons {
+        db.wallcons.entry(name).or_insert(wallcons);
+    }
+    for (name, wincons) in catdb.wincons {
+        db.wincons.entry(name).or_insert(wincons);
+    }
+    for (name, glass) in catdb.glasses {
+        db.glasses.entry(name).or_insert(glass);
+    }
+    for (name, frame) in catdb.frames {
+        db.frames.entry(name).or_insert(frame);
+    }
     ctehexmldata.bdldata.db = db;
     Ok(ctehexmldata)
 }
